@@ -135,8 +135,9 @@ def infer (Γ : Ctx) : Expr → Option Ty
         | _ => none
     | _ => none
   | .fld s f =>
+    -- identifiers are case-insensitive (IEC 61131-3 §6.1.2): `p.X` names the field `x`
     match Γ.aggs.lookup s with
-    | some (.str _ fields) => fields.lookup f
+    | some (.str _ fields) => (findFld fields f).map (·.2)
     | _ => none
 
 /-- Exact integer arithmetic of the reference. -/
@@ -238,9 +239,15 @@ def eval (Γ : Ctx) (σ : SEnv) : Expr → Except SFault SV
         | none => .error .stuck
     | _ => .error .stuck
   | .fld s f =>
-    match slookup (fldName s f) σ with
-    | some v => pure v
-    | none => .error .stuck
+    match Γ.aggs.lookup s with
+    | some (.str _ fields) =>
+      match findFld fields f with
+      | some (g, _) =>
+        match slookup (fldName s g) σ with
+        | some v => pure v
+        | none => .error .stuck
+      | none => .error .stuck
+    | _ => .error .stuck
 
 /-- Operand value: a contextual constant or an evaluated integer. -/
 def operandVal (Γ : Ctx) (σ : SEnv) (e : Expr) : Except SFault Int :=
@@ -415,7 +422,13 @@ def execStmt (Γ : Ctx) : Nat → SEnv → Stmt → SRes
       | _ => (σ, .error .stuck)
     | .assignFld s f e =>
       match valueOf Γ σ e with
-      | .ok v => (sinsert (fldName s f) v σ, .ok .cont)
+      | .ok v =>
+        match Γ.aggs.lookup s with
+        | some (.str _ fields) =>
+          match findFld fields f with
+          | some (g, _) => (sinsert (fldName s g) v σ, .ok .cont)
+          | none => (σ, .error .stuck)
+        | _ => (σ, .error .stuck)
       | .error f => (σ, .error f)
     | .ite c t elifs el =>
       match evalBool Γ σ c with
